@@ -45,7 +45,20 @@ def smooth_function(rng, d):
 
 def basis(rng, d, pmin=2, pmax=3):
     p = int(rng.integers(pmin, pmax + 1))
-    return [[smooth_function(rng, d) for _ in range(int(rng.integers(1, 4)))] for _ in range(p)]
+    bl = [[smooth_function(rng, d) for _ in range(int(rng.integers(1, 4)))] for _ in range(p)]
+    if rng.random() < 0.3:
+        # product bases assembled from one and the same objects: [B0, B1, B0], [B] * p, or single functions listed in several modes
+        # (f(x_0) g(x_1) f(x_0) is an admissible product; which factor is which is decided by the mode, not by the object)
+        k = int(rng.integers(0, 3))
+        j, l = (int(v) for v in rng.choice(p, size=2, replace=False))
+        if k == 0:
+            bl[l] = bl[j]
+        elif k == 1:
+            bl[l] = list(bl[j])
+            rng.shuffle(bl[l])
+        else:
+            bl[l][int(rng.integers(0, len(bl[l])))] = bl[j][int(rng.integers(0, len(bl[j])))]
+    return bl
 
 
 def quiet(fn, *a, **kw):
@@ -110,6 +123,31 @@ def w_amuset(ctx, rng, idx):
                     'return_option': opt})
 
 
+def w_many(ctx, rng, idx):
+    """many snapshots, few basis functions (time series of thousands of points are the normal use): snapshot counts around and
+    beyond powers of two, both generator forms"""
+    d = int(rng.integers(1, 3))
+    d2 = d if rng.random() < 0.5 else int(rng.integers(1, 3))
+    m = int([rng.integers(4097, 4700), rng.integers(2049, 4096), rng.integers(4700, 6500), rng.integers(1025, 2048)][idx % 4])
+    bl = [[smooth_function(rng, d) for _ in range(int(rng.integers(1, 3)))] for _ in range(2)]
+    while int(np.prod([len(f) for f in bl])) < 2:
+        bl = [[smooth_function(rng, d) for _ in range(int(rng.integers(1, 3)))] for _ in range(2)]
+    X = rng.uniform(-1.2, 1.2, size=(d, m))
+    sigma = rng.standard_normal((d, d2, m))
+    rev = idx % 3 == 2
+    b = None if rev else rng.standard_normal((d, m))
+    w = rng.uniform(0.5, 2.0, size=m) if rng.random() < 0.5 else None
+    ctx.describe({'op': 'tgedmd.amuset_hosvd', 'd': d, 'd2': d2, 'm': m, 'modes': [[type(f).__name__ for f in fl] for fl in bl], 'reversible': rev, 'reweight': w is not None})
+    monitors_basis.STRIDE[0] = 29
+    try:
+        call('tgedmd.amuset_hosvd', quiet, tg.amuset_hosvd, X, bl, sigma, prop=P, tags=['reversible' if rev else 'nonreversible', 'many_snapshots'], refusals=(np.linalg.LinAlgError,),
+             b=b, reweight=w, num_eigvals=np.inf, threshold=1e-8, return_option='eigenfunctionevals', rel_threshold=True)
+    finally:
+        monitors_basis.STRIDE[0] = 1
+    if idx < 2:
+        ctx.sample({'workload': 'many_snapshots', 'state_dim': d, 'snapshots': m, 'modes': [[type(f).__name__ for f in fl] for fl in bl], 'reversible': rev})
+
+
 def w_failpoint(ctx, rng, idx):
     """the same workload with the default SVD driver failing (LinAlgError injected at the LAPACK boundary before the input is touched):
     utils.truncated_svd must take its gesvd fallback and every clause must still hold"""
@@ -124,6 +162,7 @@ WORKLOADS = [
     Workload('product', w_product, 200, 4000),
     Workload('amuset', w_amuset, 160, 3000),
     Workload('failpoint', w_failpoint, 30, 500),
+    Workload('many_snapshots', w_many, 1, 6),
 ]
 REQUIRED = ['C19|tgedmd.generator_on_product:equals_generator_applied_to_product', 'C19|tgedmd.generator_on_product_reversible:equals_gradient_of_product_dot_sigma_column',
             'C19|tgedmd.amuset_hosvd:eigenvalues_equal_dense_projected_generator']
